@@ -164,5 +164,10 @@ pub fn compact(cells: &[u64]) -> Result<Vec<u64>, String> {
         current_cells = result;
     }
 
+    // A merged parent may itself have been part of the input (e.g. the world cell next to all
+    // twelve base cells), so make sure each cell is reported once
+    let mut seen = HashSet::with_capacity(current_cells.len());
+    current_cells.retain(|&cell| seen.insert(cell));
+
     Ok(current_cells)
 }
